@@ -223,6 +223,12 @@ func sinksDirect(fn *ssa.Function) []sinkInfo {
 			s.loopColl = loopCollectionDesc(l)
 		}
 		out = append(out, s)
+		// `x.part = part{a: v, b: w}` (a struct value built here and assigned as a whole): also one sink per field
+		if st, isSt := i.(*ssa.Store); isSt {
+			for _, fs := range structCopyFields(st) {
+				out = append(out, sinkInfo{ins: st, target: fs.target, val: fs.val, valDesc: desc(fs.val)})
+			}
+		}
 		// `x.list = append(x.list, v)` in a loop that starts from an empty list files v as element i of the list, like
 		// `x.list[i] = v` into a list of full length: also reported as the per-element sink
 		if st, isSt := i.(*ssa.Store); isSt {
@@ -1482,4 +1488,38 @@ func cprngSeedRule(P *Program, R *Report, rule string) {
 	}
 	R.decide(rule, "common.globalCprng:seed-from-system", "the seed given to NewCPRNG is the buffer that crypto/rand filled (the same local, not a copy)", ok,
 		fmt.Sprintf("%d NewCPRNG calls, %d seeds located, %d system reads into %d located buffers", nNew, len(seeds), nRead, len(filled)), P.Pos(initFn.Pos()))
+}
+
+// structCopyFields: st assigns a struct value that was built in a local of this function (field by field, each
+// field once) to a struct-typed place: per field of the local, the place's field (as desc names it) and the value.
+type copiedField struct {
+	target string
+	val    ssa.Value
+	field  int
+}
+
+func structCopyFields(st *ssa.Store) []copiedField {
+	ld, ok := st.Val.(*ssa.UnOp)
+	if !ok || ld.Op != token.MUL {
+		return nil
+	}
+	al, ok := ld.X.(*ssa.Alloc)
+	if !ok {
+		return nil
+	}
+	stt, ok := ld.Type().Underlying().(*types.Struct)
+	if !ok {
+		return nil
+	}
+	if n, isNamed := ld.Type().(*types.Named); !isNamed || n.Obj().Pkg() == nil || !inModule(n.Obj().Pkg()) {
+		return nil
+	}
+	var out []copiedField
+	for j := 0; j < stt.NumFields(); j++ {
+		if v := structFieldValue(ld, j); v != nil {
+			out = append(out, copiedField{target: desc(&ssa.FieldAddr{X: st.Addr, Field: j}), val: v, field: j})
+		}
+	}
+	_ = al
+	return out
 }
